@@ -27,6 +27,15 @@ if _zstd:
     _zstd.ZSTD_decompress.argtypes = [ctypes.c_void_p, ctypes.c_size_t, ctypes.c_void_p, ctypes.c_size_t]
     _zstd.ZSTD_isError.restype = ctypes.c_uint
     _zstd.ZSTD_isError.argtypes = [ctypes.c_size_t]
+    try:
+        _zstd.ZSTD_createCCtx.restype = ctypes.c_void_p
+        _zstd.ZSTD_freeCCtx.argtypes = [ctypes.c_void_p]
+        _zstd.ZSTD_CCtx_setParameter.restype = ctypes.c_size_t
+        _zstd.ZSTD_CCtx_setParameter.argtypes = [ctypes.c_void_p, ctypes.c_int, ctypes.c_int]
+        _zstd.ZSTD_compress2.restype = ctypes.c_size_t
+        _zstd.ZSTD_compress2.argtypes = [ctypes.c_void_p, ctypes.c_void_p, ctypes.c_size_t, ctypes.c_void_p, ctypes.c_size_t]
+    except AttributeError:
+        pass
 if _snappy:
     _snappy.snappy_max_compressed_length.restype = ctypes.c_size_t
     _snappy.snappy_max_compressed_length.argtypes = [ctypes.c_size_t]
@@ -72,7 +81,17 @@ def compress(codec, data):
             raise CodecError('libzstd missing')
         cap = _zstd.ZSTD_compressBound(len(data))
         out = ctypes.create_string_buffer(cap)
-        n = _zstd.ZSTD_compress(out, cap, data, len(data), 3)
+        global _zstd_flip
+        _zstd_flip = not globals().get('_zstd_flip', False)
+        if _zstd_flip and hasattr(_zstd, 'ZSTD_compress2'):
+            # every other frame is written the way streaming producers (zstd-jni output streams) write it: without the optional
+            # Frame_Content_Size field (ZSTD_c_contentSizeFlag = 200 set to 0)
+            cctx = _zstd.ZSTD_createCCtx()
+            _zstd.ZSTD_CCtx_setParameter(cctx, 200, 0)
+            n = _zstd.ZSTD_compress2(cctx, out, cap, data, len(data))
+            _zstd.ZSTD_freeCCtx(cctx)
+        else:
+            n = _zstd.ZSTD_compress(out, cap, data, len(data), 3)
         if _zstd.ZSTD_isError(n):
             raise CodecError('ZSTD_compress failed')
         return out.raw[:n]
